@@ -1490,6 +1490,27 @@ def totals_spec(md, voi):
             'env': [rat(x) for x in u] + [rat(x) for x in xvals], 'of': of, 'wrt': wrt}
 
 
+_COND_CACHE = {}
+
+
+def system_cond(md, key=None):
+    """2-norm condition number (doubles) of the exact linearised system dR/du.  Chained polynomial
+    components with unit conversions can make it astronomically large; what a solver of the real
+    code can deliver is then bounded by cond x eps."""
+    if key is not None and key in _COND_CACHE:
+        return _COND_CACHE[key]
+    try:
+        A = np.array([[float(x) for x in r] for r in exact_system_matrix(md)])
+        c = float(np.linalg.cond(A)) if A.size else 1.0
+    except Exception:
+        c = 1.0
+    if not np.isfinite(c):
+        c = 1e300
+    if key is not None:
+        _COND_CACHE[key] = c
+    return c
+
+
 def exact_system_matrix(md):
     """A = dR/du at the exact state (exact Fractions), n x n over the global output layout."""
     return _linearised(md)[0]
